@@ -50,6 +50,9 @@ def make_types(rng):
     add(t_uint(8, enc="signed", tname="S8_T"))
     add(t_uint(12, enc="twosComplement", tname="S12_T"))
     add(t_uint(32, enc="signed", bo=LSB, tname="S32LE_T"))
+    # other XTCE spellings of a signed integer: the library decodes every name but "unsigned" as two's complement
+    add(t_uint(16, enc="onesComplement", tname="OC16_T"))
+    add(t_uint(8, enc="signMagnitude", tname="SM8_T"))
 
     def fl(w, bo, name):
         def g(rng, ctrl_val=None):
@@ -202,6 +205,15 @@ class Defn:
                         self.shared_nested = nc
                 if nc is not c and not any(e[0] == "c" and e[1] is nc for e in c.entries):
                     c.entries.append(("c", nc))
+                    if nc is self.shared_nested and rng.random() < 0.35 and c.name.startswith("C"):
+                        # a diamond: the shared block is also reached through a sibling wrapper (and sometimes listed twice),
+                        # i.e. the same container is expanded more than once within one container
+                        wrap = Cont(self._pname("NEST"), abstract=False)
+                        wrap.entries.append(("c", nc))
+                        self.all.append(wrap)
+                        c.entries.append(("c", wrap))
+                        if rng.random() < 0.3:
+                            c.entries.append(("c", nc))
             elif r < 0.22:
                 # length byte + dependent binary/string field
                 ln = self._pname("LEN")
@@ -233,7 +245,10 @@ class Defn:
                 default = "-" if rng.random() < 0.5 else ["poly", [fnum(-1), "0"], [fnum(1), "1"]]
                 tn = f"{fn}_T"
                 pt = PT(tn, ["pt", S(tn), rng.choice(["plain", "plain", "bool"]),
-                             ["int", "8", S("unsigned"), S(MSB), [default, ctx]]], 8, lambda rng, cv=None: rbits(rng, 8))
+                             ["int", "8", S("unsigned"), S(MSB), [default, ctx]]], 8,
+                        # raw values recur across packets (under different contexts): results must not depend on history
+                        lambda rng, cv=None: rng.choice(["00000000", "01000000", "11001000"]) if rng.random() < 0.6
+                        else rbits(rng, 8))
                 c.entries.append(("p", fn, pt))
             else:
                 t = self.types[rng.choice(tnames)]
